@@ -92,7 +92,17 @@ def graph_case(ctx, fn, n, edges, prim, be, rng, patterns=None):
                 passed = graph.active_edges_single_cycle(s, arr, g, use_graph_primitive=prim)
                 want = G.single_cycle_or_empty(n, edges, pattern)
             else:
-                passed = graph.active_edges_single_path(s, ev, g, use_graph_primitive=True)
+                parr = cspuz.array.BoolArray1D(ev) if sum(pattern) % 2 else ev
+                if sum(pattern) % 3 == 0:
+                    # the flag left to the configuration (as a caller on a native back end would have it)
+                    old_flag = cspuz.config.use_graph_primitive
+                    cspuz.config.use_graph_primitive = True
+                    try:
+                        passed = graph.active_edges_single_path(s, parr, g)
+                    finally:
+                        cspuz.config.use_graph_primitive = old_flag
+                else:
+                    passed = graph.active_edges_single_path(s, parr, g, use_graph_primitive=True)
                 want = G.single_path(n, edges, pattern) or not any(pattern)
         except Exception as e:
             ctx.violation(f"{tag}:post-raises:{type(e).__name__}", f"posting raised {e!r}", {"desc": desc})
